@@ -15,12 +15,20 @@ CHECKS = {
              "is well-formed and that the certificate / governance-action unions dispatch unambiguously; Lean generic "
              "codec interpreter over that table with theorems on the table-driven fragment; T2: type-directed generation "
              "over all extracted classes comparing bytes, decoded values and re-encodings of model and implementation, plus "
-             "direct evaluation of decode(encode(x)) == x and re-encode equality.",
+             "direct evaluation of decode(encode(x)) == x and re-encode equality. Extensions (Props/C01_*.lean, "
+             "checks/c01_ext_*.py; DESIGN 0.9): hand-written codecs modelled one by one with their own theorems and differential "
+             "runs (addresses as output leaf, native scripts, credentials / DRep / voters / votes / action ids, pool registration "
+             "and relays incl. the libc address conversions, metadata and auxiliary data, witness sets / redeemers / key "
+             "envelopes); a kernel-checked obligation that every class of /repo with hand-written codec code is accounted for; "
+             "and the generic restorer composed with the leaf decoders (fromPrimL, compose_roundtrip), tied by encodings "
+             "damaged inside a leaf.",
         ref="3 C01", technique="Lean 4 proof over a schema regenerated from the source (translator) + generic codec model/implementation correspondence",
         note=TB + "the union side condition is a premise of the typing rule, discharged per value (typedB); Value / MultiAsset / "
                   "Asset, TransactionOutput and the decode-time list/set normalisation of TransactionBody have their own Lean "
-                  "models and round-trip theorems (Model/CustomCodec.lean, checks/c01_custom.py); the remaining hand-written "
-                  "codecs are opaque leaves judged on the implementation only; recorded defect KF-C01-both-datums."),
+                  "models and round-trip theorems (Model/CustomCodec.lean, checks/c01_custom.py); every other class with hand-written "
+                  "codec code has a model of its own in an extension (Props/C01_Overrides.lean lists them and is re-checked against "
+                  "the live classes) except CostModels, judged on the implementation only; Plutus data inside datums / redeemers is "
+                  "carried as the restored primitive (C18 models it); recorded defect KF-C01-both-datums."),
     "C02": dict(
         text="T1: the codec table regenerated from /repo's live classes is compared, inside the kernel (decide +kernel), with a "
              "table transliterated by hand from the Conway CDDL (Pyc/Spec/Conway.lean): per class the codec kind and type code, "
@@ -29,11 +37,16 @@ CHECKS = {
              "independent reference encoder written from the CDDL (harness/ref/conway.py) generates spec-level transactions "
              "covering every body key, certificate / action / voter / relay kind, output form, redeemer and auxiliary-data "
              "form, and its bytes are compared with pycardano's for the whole transaction and for each part; the Lean codec "
-             "model is run on the same objects (`codec.enc`).",
+             "model is run on the same objects (`codec.enc`). Extensions (Props/C02_*.lean, checks/c02_ext_*.py): for native "
+             "scripts, credentials and governance items, pool registration / relays, metadata / auxiliary data and the witness "
+             "set, an independent Lean transliteration of the CDDL rule (Spec/*.lean: encoder of spec content and recogniser of "
+             "items) and theorems `toItem x = spec x`, `recogniser accepts what is written`, `what the rule admits is decoded "
+             "and written back unchanged`.",
         ref="3 C02", technique="Lean 4 proof over a schema regenerated from the source (translator) against a specification table + reference-encoder correspondence",
         note=TB + "the specification table and the reference encoder are hand transliterations of the Conway CDDL (trusted); "
-                  "classes with a hand-written to_primitive (addresses, values, outputs, Plutus data, scripts, metadata) are judged "
-                  "by the reference encoder on the implementation, not by the table theorem."),
+                  "classes with a hand-written to_primitive have conformance theorems of their own in the extensions where listed above; "
+                  "addresses (C15), values (C04), outputs and Plutus data (C18) are judged by the reference encoder on the "
+                  "implementation for this property."),
     "C03": dict(
         text="Lean theorems: CBOR byte-level round trip with framing for every well-formed item (definite / indefinite arrays, "
              "chunked strings, tags); decode-then-re-encode is the identity on bytes for every typed value of every schema table "
@@ -72,7 +85,9 @@ CHECKS = {
              "refunds; token packing loses and duplicates nothing; change = provided - requested in ADA and every asset; "
              "hence inputs + withdrawals + mint = outputs + fee + net deposits for every fee value. Tied to /repo by running "
              "the model on the inputs the real build() selected and comparing all outputs; the balance equation itself is "
-             "evaluated on the serialized body by an independent ledger reader.",
+             "evaluated on the serialized body by an independent ledger reader. Extension BodyAsm (Props/C06_BodyAsm.lean): "
+             "model of _build_tx_body and of the tail of build(); the body equals the builder state field by field, and the "
+             "ledger's consumed = produced ON THE BODY follows from the accounting theorems on the state.",
         ref="3 C06", technique="Lean 4 proof (conservation invariant of the accounting model) + model/implementation correspondence",
         note=TB + "the theorems cover the accounting after input selection (selection is C14 / C09); the hypotheses "
                   "(selected inputs cover the request, packing size-break not taken) are checked per scenario by the "
@@ -82,23 +97,28 @@ CHECKS = {
              "tiered_reference_script_fee: fee = sum of exact ceilings; tier fee = ceiling of the closed form over k full "
              "tiers with loop termination; ledger minimum <= fee <= ledger minimum + 2 for integer coefficients; "
              "monotonicity in the size; CBOR head lengths monotone. Tied to /repo by differential runs on rational grids. "
-             "Sufficiency and tightness of built transactions are evaluated on the final signed bytes with Fractions.",
-        ref="3 C07", technique="Lean 4 proof (fee formulas over exact rationals) + model/implementation correspondence; built-transaction sufficiency by direct evaluation",
-        note=TB + "PARTIAL: the fee estimator (size of the fake transaction) is not modelled; the builder's final fee loop is "
-                  "(fee_loop_post / _terminates / _sufficient, over an abstract estimator, tied to the recorded estimates of "
-                  "every build); sufficiency / tightness of built transactions are decided by evaluation of the "
-                  "implementation against the exact ledger minimum "
-                  "(defect KF-C07-width-boundary was found this way and repaired); float-valued protocol parameters are not exercised."),
+             "Extension SizeDom (Props/C07_SizeDom.lean): a structural relation domB on CBOR items with dom_size "
+             "(domB fake real -> size real <= size fake, all items), composed with the fee formula, the builder's fee loop "
+             "and the ledger minimum (built_fee_covers_ledger); the relation is evaluated on every build between the recorded "
+             "fake transaction of the last estimate and the signed transaction. Sufficiency and tightness of built "
+             "transactions are also evaluated on the final signed bytes with Fractions.",
+        ref="3 C07", technique="Lean 4 proof (fee formulas over exact rationals; size dominance of the fake transaction) + model/implementation correspondence",
+        note=TB + "PARTIAL: the construction of the fake transaction is not transliterated (only the placeholder witnesses "
+                  "are); that it dominates the signed transaction is a relation evaluated per build, from which sufficiency follows by "
+                  "theorem; tightness is _partial (slack and loop overshoot are measured, not bounded by proof); "
+                  "float-valued protocol parameters are not exercised."),
     "C08": dict(
         text="Lean theorems over the models of TransactionOutput serialization, min_lovelace_post_alonzo, the negative-"
              "quantity refusal and _calc_change / token packing: minimum-ADA formula; independence of the minimum from the "
              "coin within one CBOR width; every change output holds its minimum ADA when the check is enabled; refusal "
              "branches characterised; packing preserves the bundle; serialization refuses exactly when some nested output "
              "has negative ADA or a negative stored quantity. Tied to /repo by differential runs (min-ADA utility, packing, "
-             "_calc_change, nesting levels) and judged on returned bodies by an independent ledger reader.",
+             "_calc_change, nesting levels) and judged on returned bodies by an independent ledger reader. Extension PackFit "
+             "(Props/C08_PackFit.lean): provenance of every packed chunk, the size invariant of packing and the fit of change "
+             "outputs in max_val_size (refuted on the pinned code, repaired in 8c81354).",
         ref="3 C08", technique="Lean 4 proof (output validity invariant of the change computation) + model/implementation correspondence",
         note=TB + "an output into which merge_change adds the change is a caller-requested output and is judged for sign "
-                  "only; the value-size bound of packed bundles is evaluated on the implementation, not proved."),
+                  "only; a single asset that alone exceeds max_val_size (impossible for limits of 86 bytes or more) is outside the fit theorem."),
     "C09": dict(
         text="Lean theorems over the model of build()'s input gathering and selection (exclusion conflict check, seen-set / "
              "exclusion filter over potential inputs and address UTxOs, selector fallback chain, canonical sort) with the "
@@ -115,7 +135,7 @@ CHECKS = {
              "source by source (inputs, collateral, required signers, native scripts at any depth incl. n-of-k and attached "
              "scripts, all certificate credential kinds, pool owners, key withdrawals, key voters); witnesses cover every "
              "supplied required key, are minimal unless forced, order-free, 32-byte vkeys; placeholder count = distinct "
-             "required hashes (bounded counterexample beyond 256 proved). Tied to /repo by differential runs and an "
+             "required hashes for every runnable count (full since repair 504b48a). Tied to /repo by differential runs and an "
              "independent Ed25519 verifier over the body byte slice.",
         ref="3 C10", technique="Lean 4 proof (signature algebra in an abstract group + membership characterisation) + model/implementation correspondence",
         note=TB + "the edwards25519 group law, SHA-512 and BLAKE2b are hypotheses / abstract, validated against libsodium "
@@ -183,7 +203,8 @@ CHECKS = {
              "Plutus V1-V3 script with prefix bytes, policy id, script address, CIP-14), preimages of different languages "
              "/ bytes / items differ (from the CBOR round trip), the builder's script gate accepts iff the hash equals the "
              "payment credential and picks the first matching candidate, the body's aux-data hash is over the very item "
-             "shipped. Tied to /repo by comparing the library's identifiers with hashlib over independently obtained bytes.",
+             "shipped. Tied to /repo by comparing the library's identifiers with hashlib over independently obtained bytes. "
+             "Extension (Props/C17_Metadata.lean): the auxiliary-data hash over the modelled auxiliary-data codec of all three eras.",
         ref="3 C17", technique="Lean 4 proof (identifier table = spec, preimage injectivity) + model/implementation correspondence",
         note=TB + "BLAKE2b is abstract in the theorems (collision freedom is an explicit hypothesis where needed), "
                   "validated hashlib vs nacl in the harness; the harness memoises typing.get_type_hints in-process for speed."),
